@@ -115,6 +115,97 @@ def build_source(cfg):
     return src
 
 
+# ---- several distinct tagged Unions inside ONE field annotation (or in several fields of one class) -------------------
+SLOT_WRAP = {'%s': lambda x: x, 'List[%s]': lambda x: [x], 'Dict[str, %s]': lambda x: {'k': x}}
+SLOT_GET = {'%s': lambda v: v, 'List[%s]': lambda v: v[0], 'Dict[str, %s]': lambda v: v['k']}
+
+
+def build_source_multi(cfg):
+    eng = cfg['engine']
+    src = PRE
+    for i, m in enumerate(cfg['members']):
+        src += member_src(i, m, eng)
+    slots = []
+    for u, w in zip(cfg['unions'], cfg['slots']):
+        slots.append(w % ('Union[%s]' % ', '.join('K%d' % j for j in u)))
+    c = cfg['container']
+    meta = {}
+    if c.get('tag_key') is not None:
+        meta['tag_key'] = c['tag_key']
+    if c.get('auto_assign_tags'):
+        meta['auto_assign_tags'] = True
+    if eng == 'v1':
+        meta['v1'] = True
+    lay = cfg['layout']
+    if lay == 'fields':
+        fields = ['u%d: %s' % (i, s_) for i, s_ in enumerate(slots)]
+    else:
+        t = 'Tuple[%s]' % ', '.join(slots)
+        fields = ['u: ' + {'tuple': '%s', 'dict_tuple': 'Dict[str, %s]', 'list_tuple': 'List[%s]'}[lay] % t]
+    out = ['@dataclass', 'class C(JSONWizard):', '    class _(JSONWizard.Meta):']
+    out.extend(['        %s = %r' % kv for kv in meta.items()] or ['        pass'])
+    out.extend('    ' + f for f in fields)
+    return src + '\n'.join(out) + '\n'
+
+
+def main_multi(cfg):
+    out = {'setup': None, 'ops': []}
+    src = build_source_multi(cfg)
+    out['source'] = src
+    ns = {'__name__': 'c13_case'}
+    try:
+        exec(compile(src, '<c13>', 'exec'), ns)
+    except BaseException as e:  # noqa
+        out['setup'] = err_info(e)
+        json.dump(out, sys.stdout)
+        return
+    from dataclass_wizard import fromdict, asdict
+    from dataclass_wizard.errors import ParseError
+    C = ns['C']
+    n = len(cfg['members'])
+    lay, slots = cfg['layout'], cfg['slots']
+
+    def mk(insts):
+        vals = [SLOT_WRAP[w](k) for w, k in zip(slots, insts)]
+        if lay == 'fields':
+            return C(**{'u%d' % i: v for i, v in enumerate(vals)})
+        t = tuple(vals)
+        return C(u={'tuple': t, 'dict_tuple': {'k': t}, 'list_tuple': [t]}[lay])
+
+    def slot_of(root, i, attr):
+        if lay == 'fields':
+            v = getattr(root, 'u%d' % i) if attr else root['u%d' % i]
+        else:
+            v = root.u if attr else root['u']
+            v = {'tuple': lambda x: x, 'dict_tuple': lambda x: x['k'], 'list_tuple': lambda x: x[0]}[lay](v)[i]
+        return SLOT_GET[slots[i]](v)
+
+    for op in cfg['ops']:
+        r = {}
+        try:
+            insts = [ns['K%d' % j](**vals) for j, vals in zip(op['choice'], op['values'])]
+            d = json.loads(json.dumps(asdict(mk(insts))))
+            r['dumped'] = [canon(slot_of(d, i, False)) for i in range(len(slots))]
+            if op['op'] == 'mtag':
+                slot_of(d, op['pos'], False)[op['tag_key']] = op['tag']
+            c2 = fromdict(C, d)
+            got = [slot_of(c2, i, True) for i in range(len(slots))]
+            r['loaded_members'] = [which(ns, n, v) for v in got]
+            r['equal'] = [bool(v == k) and type(v) is type(k) for v, k in zip(got, insts)]
+        except ParseError as e:
+            r.update(err_info(e))
+            vt = e.kwargs.get('valid_tags')
+            b = e
+            while vt is None and isinstance(getattr(b, 'base_error', None), ParseError):
+                b = b.base_error
+                vt = b.kwargs.get('valid_tags')
+            r['valid_tags'] = sorted(vt) if isinstance(vt, list) else None
+        except BaseException as e:  # noqa
+            r.update(err_info(e))
+        out['ops'].append(r)
+    json.dump(out, sys.stdout)
+
+
 class MyDict(dict):
     pass
 
@@ -145,6 +236,8 @@ def which(ns, n, v):
 
 def main():
     cfg = json.load(sys.stdin)
+    if cfg.get('multi'):
+        return main_multi(cfg)
     out = {'setup': None, 'ops': []}
     src = build_source(cfg)
     out['source'] = src
